@@ -323,4 +323,55 @@ theorem C18_mode_pinned_witness :
       remapEntries {} (some (Str.ofString "create")) files (Str.ofString "Linux") [d1, d2] = some [d2] := by
   decide
 
+/-! ## inverse -/
+
+/-- one-to-one: no two entries of the table (of one flavor) have the same image -/
+def OneToOne (m : Mapping) : Prop := (entries m.map).Pairwise (fun a b => outKey a ≠ outKey b)
+
+/-- explicit: no entry is a removal, products are named, in-versions are genuine versions -/
+def Explicit (m : Mapping) : Prop := ∀ e ∈ entries m.map, EntryOk e
+
+/-- **C18, inverse.**  For a one-to-one mapping of explicit versions `inverse()` succeeds, and for every entry
+`p:v -> q:w` of the table of a flavor `f` the inverse's table of that flavor takes `q:w` back to `p:v`
+(`apply1` is `Mapping._apply`, the look-up in one flavor's table). -/
+theorem C18_inverse (m : Mapping) (h1 : OneToOne m) (h2 : Explicit m) :
+    ∃ inv, m.inverse = some inv ∧
+      ∀ f p v q w, lk m.map f p v = some (q, some w) →
+        m.apply1 p v f = (q, some w) ∧ inv.apply1 q w f = (p, some v) := by
+  obtain ⟨inv, hfold, himg, _⟩ := fold_stepInv (entries m.map) {} h1 h2
+    (fun _ _ _ _ => by simp [lk, prodTable, assocGet])
+  refine ⟨inv, by rw [inverse_eq_fold]; exact hfold, ?_⟩
+  intro f p v q w hlk
+  refine ⟨apply1_of_lk m p v f _ hlk, ?_⟩
+  have hmem := mem_entries_of_lk m.map f p v q (some w) hlk
+  exact apply1_of_lk inv q w f _ (himg _ hmem w rfl)
+
+/-- for the `generic` table `apply` is that look-up: the inverse undoes the mapping -/
+theorem C18_inverse_generic (m : Mapping) (h1 : OneToOne m) (h2 : Explicit m) :
+    ∃ inv, m.inverse = some inv ∧
+      ∀ p v q w, lk m.map sGeneric p v = some (q, some w) →
+        m.apply p v sGeneric = (q, some w) ∧ inv.apply q w sGeneric = (p, some v) := by
+  obtain ⟨inv, hinv, h⟩ := C18_inverse m h1 h2
+  refine ⟨inv, hinv, ?_⟩
+  intro p v q w hlk
+  have := h sGeneric p v q w hlk
+  simpa [Mapping.apply] using this
+
+/-- Non-vacuity: a chain `a:1 -> b:2`, `b:2 -> c:3` and a version bump `x:1.0 -> x:2.0` is one-to-one and explicit;
+`a:1 -> c:1` together with `b:1 -> c:1` is not, and `inverse()` raises. -/
+example :
+    let m := buildMapping false [
+      { inP := [97], inV := [49], outP := some [98], outV := some [50], flavor := sGeneric },
+      { inP := [98], inV := [50], outP := some [99], outV := some [51], flavor := sGeneric },
+      { inP := [120], inV := Str.ofString "1.0", outP := none, outV := some (Str.ofString "2.0"), flavor := sGeneric }]
+    OneToOne m ∧ Explicit m ∧ lk m.map sGeneric [97] [49] = some ([98], some [50]) := by
+  unfold OneToOne Explicit
+  decide
+
+example :
+    (buildMapping false [
+      { inP := [97], inV := [49], outP := some [99], outV := some [49], flavor := sGeneric },
+      { inP := [98], inV := [49], outP := some [99], outV := some [49], flavor := sGeneric }]).inverse.isNone = true := by
+  decide
+
 end EupsModel.C18
